@@ -134,8 +134,8 @@ def generator_units(ctx, rule="R04.1g"):
     for qual, e, env, want, note in checks:
         u, pr = expr_unit(e, env)
         site = "%s::%s" % (GEN, qual)
-        if u is U.TOP:
-            ctx.undecided(rule, site, "%s: unknown unit (%s)" % (note, "; ".join(pr[:2])))
+        if u is U.TOP or isinstance(u, str):
+            ctx.undecided(rule, site, "%s: unknown unit %s (%s)" % (note, u, "; ".join(pr[:2])))
         else:
             ctx.check(u.eq(want), rule, site, "%s: inferred %r" % (note, u), "gen:" + note[:20] + repr(u))
     # sample_around = 1 / len_rescaled : 1/L
@@ -143,7 +143,7 @@ def generator_units(ctx, rule="R04.1g"):
     if len(sa) != 1:
         raise AnalysisError("anchor vanished: sample_around")
     u, pr = expr_unit(sa[0])
-    ctx.check(u is not U.TOP and u.eq(U.INVLEN), rule, GEN + "::RandMeth.reset_seed", "G4 MCMC start scale 1 / len_rescaled : inferred %r" % (u,), "gen:sample_around")
+    ctx.check(not isinstance(u, str) and u.eq(U.INVLEN), rule, GEN + "::RandMeth.reset_seed", "G4 MCMC start scale 1 / len_rescaled : inferred %r" % (u,), "gen:sample_around")
     # mode grid: every per-axis wave-number array carries 1/L
     lcs = [n for n in ast.walk(sm) if isinstance(n, ast.ListComp) and any(isinstance(c, ast.Call) and ast.unparse(c.func) == "np.arange" for c in ast.walk(n.elt))]
     if len(lcs) != 1:
